@@ -347,8 +347,8 @@ def makeTocEntry (isSpace : Char → Bool) (hasScheme : Str → Bool) (child : S
 
 /-! ## validate_toc_entries (parser.py) -/
 
-/-- `for e in entries: if bad(e): entries.remove(e)` with CPython's list-iterator semantics:
-the iterator is an index, `remove` deletes the first equal element, so the element following
+/-- `for e in entries: if bad(e): entries.remove(e)` with CPython's list-iterator semantics, as the loop was BEFORE
+the fix 211e214: the iterator is an index, `remove` deletes the first equal element, so the element following
 a removed one is skipped. -/
 def validateLoop (bad : Entry → Bool) : Nat → Nat → List Entry → List Entry
   | 0, _, l => l
@@ -357,9 +357,17 @@ def validateLoop (bad : Entry → Bool) : Nat → Nat → List Entry → List En
     | none => l
     | some e => if bad e then validateLoop bad fuel (i + 1) (l.erase e) else validateLoop bad fuel (i + 1) l
 
+def badEntry (products : List Str) (e : Entry) : Bool :=
+  match truthy e.refProject with
+  | some p => !products.contains p
+  | none => false
+
+def validateTocEntriesOld (products : List Str) (es : List Entry) : List Entry :=
+  validateLoop (badEntry products) (es.length + 1) 0 es
+
+/-- the loop as it is now: `for e in list(entries): if bad(e): entries.remove(e)` — the iteration runs over a copy,
+`remove` still deletes the first equal element of the list the caller keeps using. -/
 def validateTocEntries (products : List Str) (es : List Entry) : List Entry :=
-  validateLoop (fun e => match truthy e.refProject with
-    | some p => !products.contains p
-    | none => false) (es.length + 1) 0 es
+  es.foldl (fun l e => if badEntry products e then l.erase e else l) es
 
 end SnootyVerif.Toc
